@@ -693,6 +693,13 @@ func parseCalendarDates(csv *csv.File, m map[string]Service, timezone *time.Loca
 }
 
 func parseTime(s string, timezone *time.Location) (time.Time, error) {
+	if t, err := time.ParseInLocation("20060102", s, timezone); err == nil && t.Format("20060102") != s {
+		// Local midnight does not exist on this date (daylight saving time starts at 00:00 in this
+		// timezone) and the parsed instant lies on the previous day.
+		if u := startOfDayAfterGap(t); u.Format("20060102") == s {
+			return u, nil
+		}
+	}
 	return time.ParseInLocation("20060102", s, timezone)
 }
 
